@@ -1,0 +1,93 @@
+//go:build verif
+
+// Machine-checked contracts for package poseidon (comment-only, build tag `verif`).
+// Shared definitions (canon, chipok, ...) are in goldilocks/contracts_verif.go.
+//
+// The Goldilocks Poseidon specification below is plonky2's `hash/poseidon.rs` written over
+// integers mod P, layer by layer, using the same constant tables as the code (the tables are
+// data; their agreement with plonky2's is checked separately, see DESIGN.md C09).
+package poseidon
+
+//@ def canonState(s) = forall(i, 0, 12, canon(s[i]))
+//@ def pow7(x) = (x * x * x * x * x * x * x) % P
+
+// ---- specification of the permutation (states are 12-tuples of integers in [0,P))
+//@ def sp_const(s, r) = mktuple(12, i, (s[i] + ALL_ROUND_CONSTANTS[i + 12*r]) % P)
+//@ def sp_sbox(s) = mktuple(12, i, pow7(s[i]))
+//@ def sp_mds_row(s, r) = (sum(i, 0, 12, s[(i + r) % 12] * MDS_MATRIX_CIRC[i]) + s[r] * MDS_MATRIX_DIAG[r]) % P
+//@ def sp_mds(s) = mktuple(12, r, sp_mds_row(s, r))
+//@ def sp_full_round(s, r) = sp_mds(sp_sbox(sp_const(s, r)))
+//@ def sp_full_rounds(s, r0) = iterate(4, k, acc, s, sp_full_round(acc, r0 + k))
+//@ def sp_pfirst(s) = mktuple(12, i, (s[i] + FAST_PARTIAL_FIRST_ROUND_CONSTANT[i]) % P)
+//@ def sp_pinit_elem(s, d) = ite(d == 0, s[0], sum(r, 1, 12, s[r] * FAST_PARTIAL_ROUND_INITIAL_MATRIX[r-1][ite(d == 0, 0, d-1)]) % P)
+//@ def sp_pinit(s) = mktuple(12, d, sp_pinit_elem(s, d))
+//@ def sp_pfast_elem(s, r, i) = ite(i == 0, (s[0] * MDS0TO0 + sum(j, 1, 12, s[j] * FAST_PARTIAL_ROUND_W_HATS[r][j-1])) % P, (s[0] * FAST_PARTIAL_ROUND_VS[r][ite(i == 0, 0, i-1)] + s[i]) % P)
+//@ def sp_pfast(s, r) = mktuple(12, i, sp_pfast_elem(s, r, i))
+//@ def sp_set0(s, v) = mktuple(12, i, ite(i == 0, v, s[i]))
+//@ def sp_partial_round(s, r) = sp_pfast(sp_set0(s, (pow7(s[0]) + FAST_PARTIAL_ROUND_CONSTANTS[r]) % P), r)
+//@ def sp_partial_rounds(s) = iterate(22, k, acc, sp_pinit(sp_pfirst(s)), sp_partial_round(acc, k))
+//@ def sp_poseidon(s) = sp_full_rounds(sp_partial_rounds(sp_full_rounds(s, 0)), 26)
+
+//@ func (c *GoldilocksChip) sBoxMonomial(x gl.Variable) (res gl.Variable)
+//@   props C05 C09
+//@   circuit
+//@   requires chipok(c.Gl) && canon(x)
+//@   ensures canon(res)
+//@   ensures res.Limb == pow7(x.Limb)
+
+//@ func (c *GoldilocksChip) constantLayer(state GoldilocksState, roundCounter *int) (res GoldilocksState)
+//@   props C05 C09
+//@   circuit
+//@   requires chipok(c.Gl) && canonState(state) && 0 <= *roundCounter && *roundCounter < 30
+//@   ensures canonState(res)
+//@   ensures *roundCounter == old(*roundCounter)
+//@   ensures res == sp_const(state, *roundCounter)
+
+//@ func (c *GoldilocksChip) sBoxLayer(state GoldilocksState) (res GoldilocksState)
+//@   props C05 C09
+//@   circuit
+//@   requires chipok(c.Gl) && canonState(state)
+//@   ensures canonState(res)
+//@   ensures res == sp_sbox(state)
+
+//@ func (c *GoldilocksChip) mdsRowShf(r int, v GoldilocksState) (res gl.Variable)
+//@   props C05 C09
+//@   circuit
+//@   requires chipok(c.Gl) && canonState(v) && 0 <= r && r < 12
+//@   ensures canon(res)
+//@   ensures res.Limb == sp_mds_row(v, r)
+
+//@ func (c *GoldilocksChip) mdsLayer(state_ GoldilocksState) (res GoldilocksState)
+//@   props C05 C09
+//@   circuit
+//@   requires chipok(c.Gl) && canonState(state_)
+//@   ensures canonState(res)
+//@   ensures res == sp_mds(state_)
+
+//@ func (c *GoldilocksChip) partialFirstConstantLayer(state GoldilocksState) (res GoldilocksState)
+//@   props C05 C09
+//@   circuit
+//@   requires chipok(c.Gl) && canonState(state)
+//@   ensures canonState(res)
+//@   ensures res == sp_pfirst(state)
+
+//@ func (c *GoldilocksChip) mdsPartialLayerInit(state GoldilocksState) (res GoldilocksState)
+//@   props C05 C09
+//@   circuit
+//@   requires chipok(c.Gl) && canonState(state)
+//@   ensures canonState(res)
+//@   ensures res == sp_pinit(state)
+
+//@ func (c *GoldilocksChip) mdsPartialLayerFast(state GoldilocksState, r int) (res GoldilocksState)
+//@   props C05 C09
+//@   circuit
+//@   requires chipok(c.Gl) && canonState(state) && 0 <= r && r < 22
+//@   ensures canonState(res)
+//@   ensures res == sp_pfast(state, r)
+
+//@ func (c *GoldilocksChip) Poseidon(input GoldilocksState) (res GoldilocksState)
+//@   props C05 C09
+//@   circuit
+//@   requires chipok(c.Gl) && canonState(input)
+//@   ensures canonState(res)
+//@   ensures res == sp_poseidon(input)
